@@ -14,6 +14,7 @@ type envModel struct {
 	nowSeq  int
 	lastNow *Term
 	fs      *fsModel
+	unixMemo map[string]*Term
 }
 
 const (
@@ -25,6 +26,10 @@ const (
 func (in *Interp) timeCall(fr *frame, fn *ssa.Function, full string, args []Value, pos token.Pos) (Value, bool) {
 	switch full {
 	case "time.Now":
+		if in.cfg.Params["fixedclock"] == 1 && in.env.lastNow != nil {
+			// harnesses that are not about time: the clock stands still at one arbitrary instant
+			return Struct{BVc(64, 0), in.env.lastNow, NilPtr{}}, true
+		}
 		in.env.nowSeq++
 		t := in.fresh(fmt.Sprintf("$now%d", in.env.nowSeq), SBV, 64)
 		in.assume(BVCmp("ge", true, t, BVc(64, minClockMs)))
@@ -46,8 +51,15 @@ func (in *Interp) timeCall(fr *frame, fn *ssa.Function, full string, args []Valu
 			}
 			return BVc(64, uint64(q)), true
 		}
+		if in.env.unixMemo == nil {
+			in.env.unixMemo = map[string]*Term{}
+		}
+		if q, ok := in.env.unixMemo[ms.S]; ok {
+			return q, true
+		}
 		in.env.nowSeq++
 		q := in.fresh(fmt.Sprintf("$unix%d", in.env.nowSeq), SBV, 64)
+		in.env.unixMemo[ms.S] = q
 		in.assume(BVCmp("ge", true, q, BVc(64, 0)))
 		in.assume(BVCmp("le", true, q, BVc(64, maxClockMs/1000+1)))
 		q1000 := BVBin("mul", true, q, BVc(64, 1000))
@@ -341,6 +353,40 @@ func (in *Interp) lungoCall(fr *frame, fn *ssa.Function, full string, args []Val
 		return Tuple{SliceV{D: d}, &Iface{}}, true
 	case "github.com/256dpi/lungo.assertOptions":
 		return nil, true
+	case "github.com/256dpi/lungo/bsonkit.Decode":
+		// codec stub: decode a document into *bson.D as a copy in fresh memory
+		src, ok := args[0].(*Value)
+		if !ok {
+			return in.mkError("cannot decode a nil document"), true
+		}
+		out := in.force(args[1])
+		dst, ok := out.V.(*Value)
+		if !ok || out.T == nil {
+			in.fail("unsupported", "Decode into a non-pointer")
+		}
+		switch (*dst).(type) {
+		case SliceV:
+			in.store(dst, in.deepCopy(*src), pos)
+			return &Iface{}, true
+		}
+		in.fail("unsupported", "Decode into "+out.T.String()+" (only *bson.D is modelled; struct decoding is the codec's business)")
+	case "github.com/256dpi/lungo/bsonkit.DecodeList":
+		list := args[0].(SliceV)
+		out := in.force(args[1])
+		dst, ok := out.V.(*Value)
+		if !ok || out.T == nil {
+			in.fail("unsupported", "DecodeList into a non-pointer")
+		}
+		d := make([]Value, len(list.D))
+		for i, e := range list.D {
+			p, ok := e.(*Value)
+			if !ok {
+				in.fail("unsupported", "DecodeList of a nil document")
+			}
+			d[i] = in.deepCopy(*p)
+		}
+		in.store(dst, SliceV{D: d}, pos)
+		return &Iface{}, true
 	}
 	return nil, false
 }
@@ -351,6 +397,21 @@ func (in *Interp) contextCall(fr *frame, fn *ssa.Function, full string, args []V
 	switch full {
 	case "context.AfterFunc":
 		in.fail("unsupported", "context.AfterFunc")
+	case "context.WithValue":
+		// the real function only adds reflection-based argument checks around &valueCtx{parent, key, val}
+		if p := in.force(args[0]); p.T == nil {
+			in.goPanicf(pos, "cannot create context from nil parent")
+		}
+		k := in.force(args[1])
+		if k.T == nil {
+			in.goPanicf(pos, "nil key")
+		}
+		if !types.Comparable(k.T) {
+			in.goPanicf(pos, "key is not comparable")
+		}
+		vt := in.tcache.named("context", "valueCtx")
+		var st Value = Struct{args[0], args[1], args[2]}
+		return &Iface{T: types.NewPointer(vt), V: &st}, true
 	}
 	return nil, false
 }
